@@ -18,11 +18,15 @@ def lib_tables(logic, reverse=False):
     held = {op: (M.truth_table(Operator[op], reverse=reverse) if reverse else M.truth_table(Operator[op])) for op in RT.OPS}
     for op in RT.OPS:
         tt = held[op]
-        out[op] = {tuple(v.name for v in k): o.name for k, o in tt.mapping.items()}
-        if [tuple(v.name for v in k) for k in tt.inputs] != list(out[op]) or [o.name for o in tt.outputs] != list(out[op].values()) \
-                or tt.operator is not Operator[op]:
-            out[op] = {('inputs/outputs/mapping disagree',): '?'}
+        byrows = {tuple(v.name for v in k): o.name for k, o in zip(tt.inputs, tt.outputs)}
+        bymap = {tuple(v.name for v in k): o.name for k, o in tt.mapping.items()}
+        out[op] = byrows
+        if byrows != bymap or list(byrows) != list(bymap) or tt.operator is not Operator[op]:
+            diff = [k for k in byrows if bymap.get(k) != byrows[k]][:3]
+            PROBLEMS.append((logic.Meta.name, op, reverse, f'the table object is inconsistent once the other tables have been requested: mapping and inputs/outputs disagree at {diff}'))
     return out
+
+PROBLEMS = []
 
 def lazy_order_worker(order):
     """Run in a fresh process WITHOUT import_all: load the logics one by one in the given order and build each one's
@@ -43,6 +47,8 @@ def lazy_order_worker(order):
                     got = lt[op].get(tup)
                     if got != want:
                         bad.append([n, op, ''.join(tup), got, want, rev])
+    for lname, op, rev, what in PROBLEMS:
+        bad.append([lname, op, 'table-object', what, '', rev])
     print(json.dumps(bad))
 
 def run(ctx):
@@ -104,6 +110,9 @@ def run(ctx):
                     violations.append(dict(sig=f'{name}|def-Assertion|{a}', what=f'{name}: Assertion is not native but *{a} = {ast[(a,)]}', replay=dict(logic=name)))
         if len(samples) < 4:
             samples.append(dict(logic=name, operator='Conjunction', table={''.join(k): v for k, v in lt['Conjunction'].items()}))
+    for lname, op, rev, what in PROBLEMS:
+        violations.append(dict(sig=f'{lname}|table-object|{op}|reverse={rev}', what=f'{lname}: truth_table({op}, reverse={rev}): {what}', replay=dict(logic=lname)))
+    del PROBLEMS[:]
     # a modal extension has exactly the tables of its base logic
     for name in names:
         ref = RT.LOGICS.get(name)
